@@ -108,6 +108,7 @@ def identity_strategy():
             "sleeptime": st.one_of(st.sampled_from([0, 1, 1000, 60000, 2**31 - 1]), st.integers(0, 2**31 - 1)),
             "jitter": st.integers(0, 99),
             "use_config_sleep": st.booleans(),
+            "resleep": st.lists(st.tuples(st.one_of(st.sampled_from([0, 1, 1000, 60000]), st.integers(0, 2**31 - 1)), st.integers(0, 99)), max_size=2),
             "rng": st.integers(0, 2**32 - 1),
         }
     )
@@ -188,6 +189,15 @@ def identity_execute(case, stats):
         for _ in range(200):
             t = lib(cl.get_sleep_time)
             check(lo - 1e-6 * (s + 1) <= t <= s + 1e-9, "identity:sleep_band", f"sleep {t} outside [{lo}, {s}] (jitter {j})")
+        # a COMMAND_SLEEP handler reconfigures the running client by assigning client.sleeptime / client.jitter (this is what
+        # scripts/example_client.py and the tutorial do): the intervals drawn afterwards lie in the band configured THEN
+        for s2, j2 in case.get("resleep", []):
+            cl.sleeptime = s2
+            cl.jitter = j2
+            lo2 = s2 * (1 - j2 / 100.0)
+            for _ in range(50):
+                t = lib(cl.get_sleep_time)
+                check(lo2 - 1e-6 * (s2 + 1) <= t <= s2 + 1e-9, "identity:sleep_band_after_reconfiguration", f"sleep {t} outside [{lo2}, {s2}] after client.sleeptime={s2}, client.jitter={j2} (started with {s}/{j})")
     nonascii = any(ord(ch) > 127 for ch in case["user"] + case["computer"] + case["process"])
     stats.note(case, nonascii or not (0 <= bid < 2**31) or bid % 2 == 1, classes=["accepted", "non_ascii_names" if nonascii else "ascii_names", "long_info" if len(info_full) > 51 else "short_info"])
 
@@ -224,7 +234,16 @@ def run_dispatch(state):
         else:
             cname = BeaconCommand(m).name.replace("COMMAND_", "").lower()
             respond = m == 4
-            attrs[f"on_{cname}"] = (lambda name, respond: lambda self, task: (log.append((name, self._cur)), (0, b"resp") if respond else None)[1])(f"method:on_{cname}", respond)
+            if respond:
+                # the sleep handler reconfigures the running client the way scripts/example_client.py does
+                def on_sleep(self, task, name=f"method:on_{cname}"):
+                    log.append((name, self._cur))
+                    self.sleeptime, self.jitter = _resleep(self._cur)
+                    return (0, b"resp")
+
+                attrs[f"on_{cname}"] = on_sleep
+            else:
+                attrs[f"on_{cname}"] = (lambda name: lambda self, task: (log.append((name, self._cur)), None)[1])(f"method:on_{cname}")
 
     tasks = list(state["tasks"])
 
@@ -292,8 +311,17 @@ def run_dispatch(state):
                 raise Violation("dispatch:handler_list_grows", f"get_handlers({cmd}) returned {first} then {again} handlers (regs={state['regs']}, methods={state['methods']})")
         eq(first, len(model_handlers(cmd)), "dispatch:handler_count", f"number of handlers for command {cmd} (regs={state['regs']}, methods={state['methods']})")
 
-    with patched_client_module():
+    with patched_client_module() as pm:
         r = lib(cl.run, config(), beacon_id=2, user="u", computer="c", process="p", silent=silent, sleeptime=1000, jitter=0, what="run() with the real beacon loop")
+        slept = list(pm.fake.slept)
+    # one sleep per loop iteration, each inside the jitter band configured at that moment
+    eq(len(slept), len(tasks), "sleep:count", f"number of sleeps for {len(tasks)} loop iterations")
+    cur = (1000, 0)
+    for i, (cmd, _d) in enumerate(tasks):
+        if cmd == 4 and 4 in state["methods"]:
+            cur = _resleep(i)
+        lo_, hi_ = cur[0] * (1 - cur[1] / 100.0) / 1000.0, cur[0] / 1000.0
+        check(lo_ - 1e-9 <= slept[i] <= hi_ + 1e-9, "sleep:band_in_loop", f"sleep after task {i} was {slept[i]} s, configured band [{lo_}, {hi_}] s (sleeptime/jitter {cur}); tasks={tasks}")
     want = []
     for i, (cmd, _d) in enumerate(tasks):
         if cmd is None and not silent:
@@ -310,6 +338,10 @@ def run_dispatch(state):
     want_sent = [(i, 0, b"resp") for i, (cmd, _d) in enumerate(tasks) if cmd == 4 and 4 in state["methods"]]
     eq(sent, want_sent, "dispatch:callbacks", "callbacks sent for handler responses")
     return log
+
+
+def _resleep(i):
+    return 2000 + 37 * i, (i * 7) % 100
 
 
 def dispatch_finish(state, case, stats):
